@@ -83,6 +83,56 @@ def cases(draw, tier):
     return c
 
 
+@st.composite
+def factored_cases(draw, tier):
+    """Products in which one factor is a parenthesised sum of two or three tensors over x plus, usually, an addend that
+    lacks x (a literal, a scalar tensor, a tensor over another index), and another factor is a plain tensor over x: the
+    expansion makes every additive term mention x, but the sparse/dense decision is taken on the unexpanded tree, where
+    the sum on its own is not sparse.  Also sums of two such products, and a second index below or above x."""
+    x = "i"
+    other = draw(st.sampled_from([None, None, "j"]))
+    nsum = draw(st.integers(2, 3))
+
+    def over_x(name):
+        if other and draw(st.integers(0, 2)) == 0:
+            return ["t", name, [x, other] if draw(st.booleans()) else [other, x]]
+        return ["t", name, [x]]
+
+    terms = [over_x("abc"[q]) for q in range(nsum)]
+    lacking = draw(st.sampled_from(["lit", "lit", "scalar", "other", "none"]))
+    if lacking == "lit":
+        terms.append(draw(st.sampled_from([["i", 1], ["i", 2], ["f", "0.5"]])))
+    elif lacking == "scalar":
+        terms.append(["t", "e", []])
+    elif lacking == "other" and other:
+        terms.append(["t", "e", [other]])
+    terms = list(draw(st.permutations(terms)))
+    total = terms[0]
+    for t in terms[1:]:
+        total = [draw(st.sampled_from("++-")), total, t] if draw(st.integers(0, 3)) else [draw(st.sampled_from("+-")), t, total]
+    driver = over_x("d")
+    tree = ["*", driver, total] if draw(st.booleans()) else ["*", total, driver]
+    if draw(st.integers(0, 3)) == 0:
+        tree = ["*", tree, over_x("f")] if draw(st.booleans()) else ["+", tree, ["*", over_x("f"), over_x("g")]]
+    used = X.indexes_of(tree)
+    tgt = [i for i in used if draw(st.integers(0, 3))]
+    tgt = list(draw(st.permutations(tgt)))
+    sizes = {i: draw(st.sampled_from([2, 3, 4])) for i in used}
+    fm = {"o": draw(gen.formats(len(tgt), sparse_bias=0.7))}
+    inputs = {}
+    seen = {}
+    for t in X.tensors(tree):
+        if t[1] in seen:
+            continue
+        seen[t[1]] = t
+        fm[t[1]] = draw(gen.formats(len(t[2]), sparse_bias=0.7))
+        inputs[t[1]] = draw(gen.stored_tensor(tuple(sizes[i] for i in t[2]), fm[t[1]], "exact", draw(st.sampled_from([2, 2, 3, 1]))))
+    order = ["o"] + gen.tensors_in_order(tree)
+    return {"target": ["o", tgt], "expr": tree, "assignment": X.assignment_text(["o", tgt], tree),
+            "formats": {n: fm[n] for n in order}, "sizes": sizes, "inputs": inputs, "value_class": "exact",
+            "pick": draw(st.integers(0, 7))}
+
+
 def check(case, ctx=None):
     labels = set()
     q = qualifying_classes(case)
@@ -154,7 +204,7 @@ def check(case, ctx=None):
     return result(fails, labels, two and runs and runs[0][1] >= 1, kcheck.case_id(c), s, {"scaled_runs": len(runs)})
 
 
-STREAMS = {"main": {"strategy": cases, "check": check}}
+STREAMS = {"main": {"strategy": cases, "check": check}, "factored": {"strategy": factored_cases, "check": check}}
 
 
 def shrink_case(case, bucket):
@@ -180,6 +230,7 @@ def replay(payload):
 def run(chk):
     n = 1200 if chk.tier == "quick" else 40000
     chk.absorb(run_stream(__name__, "main", chk.tier, chk.seed, n), shrink=shrink_case)
+    chk.absorb(run_stream(__name__, "factored", chk.tier, chk.seed, n // 3), shrink=shrink_case)
 
 
 def health(cov):
